@@ -144,11 +144,15 @@ type Timer struct {
 	f       func()
 }
 
-func newTimer(name string, f func()) *Timer {
+func newTimer(name string, d Duration, f func()) *Timer {
 	vnow()
 	timerSeq++
 	t := &Timer{c: make(chan Time, 1), f: f}
 	t.C = t.c
+	if d >= time.Hour {
+		// "never" timers (gorilla uses 1000h when no deadline is set) do not fire
+		return t
+	}
 	vrt.AddEnv(&vrt.EnvEvent{
 		Name:    fmt.Sprintf("%s#%d", name, timerSeq),
 		Enabled: func() bool { return !t.stopped && !t.fired },
@@ -173,21 +177,21 @@ func NewTimer(d Duration) *Timer {
 		r := time.NewTimer(d)
 		return &Timer{C: r.C, real: r}
 	}
-	return newTimer("timer", nil)
+	return newTimer("timer", d, nil)
 }
 
 func After(d Duration) <-chan Time {
 	if !vrt.Active() {
 		return time.After(d)
 	}
-	return newTimer("after", nil).C
+	return newTimer("after", d, nil).C
 }
 
 func AfterFunc(d Duration, f func()) *Timer {
 	if !vrt.Active() {
 		return &Timer{real: time.AfterFunc(d, f)}
 	}
-	return newTimer("afterfunc", f)
+	return newTimer("afterfunc", d, f)
 }
 
 func (t *Timer) Stop() bool {
